@@ -156,6 +156,16 @@ fn apply_run(base: &Components, run: &Value) -> Components {
             }
         }
     };
+    // removal of consumption the DHW indicator must not depend on: all non-EPB use, or the
+    // non-electric use of the other (non-DHW) EPB services
+    match run.get("drop").and_then(|x| x.as_str()) {
+        Some("nepb") => c.data.retain(|e| !(e.is_used() && e.is_nepb_use())),
+        Some("other-nonelectric") => c.data.retain(|e| {
+            !(e.is_used() && e.is_epb_use() && !e.has_service(Service::ACS) && !e.has_carrier(Carrier::ELECTRICIDAD)
+                && !e.has_carrier(Carrier::EAMBIENTE) && !e.has_carrier(Carrier::TERMOSOLAR))
+        }),
+        _ => {}
+    }
     if let Some(sc) = run.get("scale") {
         let k = rat(sc, 1.0) as f32;
         each(&mut c, &|v| v.iter_mut().for_each(|x| *x *= k));
